@@ -5,7 +5,7 @@
 (* harness/cfg_rig draws random pairs of sources (every option at random   *)
 (* present / absent in the file and on the command line, random values of  *)
 (* the right type - not the fixed values of MC_Config), runs the real      *)
-(* from_file / Opt parsing / patch_with_options / verify on each and        *)
+(* from_file / Opt parsing / patch_with_options / verify on each and       *)
 (* records one ndjson event per pair:                                      *)
 (*   {"ev":"case","prog":"teosd"|"teos-cli","file":{..},"cli":{..},        *)
 (*    "obs":{"patched":{..Config after patch_with_options..},              *)
